@@ -31,6 +31,8 @@ TWINS["memimage"] = [
 
 TWINS["fixpoint"] = [("Computation", "c07.closure")]
 
+TWINS["callgraph"] = [("find_call_sequences", "c24.calls")]
+
 PROPS = {
     "C01": {
         "units": ["bitvector"],
@@ -97,6 +99,33 @@ PROPS = {
                      'terminate or diverge, no side effect on the Computation',
                      'shim/fixpoint.rs contracts of petgraph 0.6 / fnv / std BTreeSet (external_body), written from their documentation',
                      'rule R5: .expect(..) -> .unwrap() with proved precondition',
+                     '64-bit target (usize = u64)']},
+    "C24": {'units': ['callgraph'],
+     'level_text': 'find_call_sequences_from_node_to_target and find_call_sequences_to_target of analysis/callgraph.rs (and the types Tid, Term<T> of intermediate_representation/term.rs) are extracted '
+                   'verbatim from /repo on each run and verified by Verus for EVERY call graph (any number of nodes and edges, cycles, self-calls, parallel calls) and every pair of nodes: the returned '
+                   'set is exactly { tid(e) : the call edge e lies on some path of head-to-tail edges from the source node to the target node } (path-based specification written from the property '
+                   'statement; the reading "source reaches the caller of e and the callee of e reaches target" is proved equivalent), the graph is never indexed with a non-existing edge, and both '
+                   'depth-first searches terminate (measure: unvisited nodes, then stack length). The wrapper find_call_sequences_to_target returns that set for the first nodes labelled with the two '
+                   'function tids.',
+     'level_note': 'Claim is "for every call graph", not "for every program": get_program_callgraph (Term<Program> -> graph through a HashMap<Tid, NodeIndex>) is not verified; the bounded twin c24.calls '
+                   'runs it on generated programs (cycles, self-calls, extern targets, CallInd) for all (source, target) pairs. Of "exactly", one step is assumed, not proved: the final '
+                   '`.iter().filter_map(..).collect()` is an R9 substitution whose contract is "the tids of the edges contained in both edge sets". Trusted: shim/callgraph.rs (petgraph DiGraph seen as '
+                   'an edge sequence, neighbors_directed / edges_directed / EdgeReference::id / Direction from the petgraph documentation, u32 index bounds, std BTreeSet::new/insert as a Set), the '
+                   'restated type alias CallGraph, four R9 substitutions. find_call_sequences_to_target panics when a tid labels no node: not claimed.',
+     'design_ref': 'DESIGN.md section 4 (C24)',
+     'default_twins': ['c24.calls'],
+     'sweep_twins': ['c24.calls'],
+     'kani': [],
+     'not_covered': ['get_program_callgraph (builds the graph from Term<Program>: BTreeMap::keys()/values() iterators, HashMap<Tid, NodeIndex>, nested for loops over &Vec fields with `if let Jmp::Call '
+                     '{..}`; only exercised by the bounded twin c24.calls)'],
+     'assumptions': ['shim/callgraph.rs contracts of petgraph 0.6 (neighbors_directed, edges_directed: every entry is an edge at the node in the given direction and every such edge has an entry; no '
+                     'order, no multiplicity assumed; EdgeReference::id; Index<EdgeIndex> panics iff the edge does not exist; node/edge indices are u32; edges connect existing nodes) and std '
+                     'BTreeSet::{new, insert} (external_body), written from their documentation',
+                     'R9: the final `A.iter().filter_map(|edge| if B.contains(edge) { Some(GRAPH[*edge].tid.clone()) } else { None }).collect()` yields { tid(e) : e in A and e in B } (the assumed part '
+                     'of "exactly")',
+                     'R9: `callgraph.node_indices().find(|node| callgraph[*node] == *TID).unwrap_or_else(|| panic!(..))` yields the first node labelled TID and diverges when there is none; derived == on '
+                     'Tid read as specification equality',
+                     "the type alias CallGraph<'a> = DiGraph<Tid, &'a Term<Jmp>> is restated in the unit (the extractor does not pull type aliases); Jmp is opaque",
                      '64-bit target (usize = u64)']},
 }
 
